@@ -10,6 +10,8 @@ ASSUMPTIONS = [
     "an exception is raised",
     "preconditions: both netlists self-contained, every first-class element named, sibling names distinct per scope, nets local "
     "to their definition (a wire joins only pins of its definition's ports and children)",
+    "shape 'two-children': the top holds two instances of the two-pin cell (references fixed by the job), so that the planted "
+    "net difference includes 'same pin of the other instance'",
     "outside: EDIF.properties / EDIF.original_identifier values (keys outside the data-key universe), unnamed elements, larger shapes; "
     "write-then-read copies (their equality is C03/C04)",
 ]
@@ -31,4 +33,8 @@ def jobs(tier):
     out = [job(s, tier) for s in sc]
     out.append(job("instance-reference@two-libs", tier, TWO_LIBS_CUBE))
     out.append(job("faithful-copy@two-libs", tier, TWO_LIBS_CUBE))
+    # two instances of the two-pin cell under the top: a net on the right pin of the WRONG instance
+    two_children = {"Instance/0/_reference": ["Definition", 0], "Instance/1/_reference": ["Definition", 0]}
+    out.append(job("net-touches-another-bit@two-children", tier, two_children))
+    out.append(job("faithful-copy@two-children", tier, two_children))
     return out
